@@ -7,6 +7,55 @@ def showNum : Num → String
   | .int v => s!"int:{v}"
   | .f32 b => s!"f32:{b}"
 
+def parseQ? (s : String) : Option Q :=
+  match s.splitOn "/" with
+  | [a, b] => do
+    let n ← a.toInt?
+    let d ← b.toNat?
+    if d = 0 then none else pure ⟨n, d⟩
+  | _ => none
+
+def parseQs? (s : String) : Option (List Q) :=
+  if s == "-" then some [] else (s.splitOn ",").mapM parseQ?
+
+def parseColon? (s : String) : Option (List Int) := (s.splitOn ":").mapM String.toInt?
+
+def parseLeds? (s : String) : Option (List Led) :=
+  if s == "-" then some [] else
+  (s.splitOn ",").mapM fun w =>
+    match parseColon? w with
+    | some [r, g, b, .ofNat i] => some ⟨r, g, b, i⟩
+    | _ => none
+
+def parseTimings? (s : String) : Option (List Timing) :=
+  if s == "-" then some [] else
+  (s.splitOn ",").mapM fun w =>
+    match parseColon? w with
+    | some [t, r, g, b, leds, fade, rot] =>
+      if fade = 0 ∨ fade = 1 then some ⟨t, r, g, b, leds, fade = 1, rot⟩ else none
+    | _ => none
+
+def showAngle : Angle → String
+  | .base b => s!"b{b}"
+  | .sub b n => s!"s{b}:{showNum n}"
+
+def showDecoded : Decoded → String
+  | .none => "none"
+  | .ranges d =>
+    let sorted := d.toArray.qsort (fun a b => a.1 < b.1) |>.toList
+    "ranges " ++ (if sorted.isEmpty then "-" else ",".intercalate (sorted.map fun e => s!"{e.1}:{e.2}"))
+  | .persist b => s!"persist {if b then 1 else 0}"
+  | .lhAngle bs x y => s!"lh {bs} {";".intercalate (x.map showAngle)} {";".intercalate (y.map showAngle)}"
+
+def showIncoming : Incoming → String
+  | .dropped => "dropped"
+  | .packet t d dec => s!"{t} {toHex d} {showDecoded dec}"
+
+def showComps (l : List QComp) : String :=
+  if l.isEmpty then "-" else ",".intercalate (l.map fun c => s!"{c.idx}:{if c.neg then 1 else 0}:{c.mag}")
+
+def vec4 (a b c d : Int) : Fin 4 → Int := fun i => [a, b, c, d].getD i.val 0
+
 def step (_ : Unit) (ws : List String) : Unit × String :=
   let r : String :=
     match ws with
@@ -18,6 +67,54 @@ def step (_ : Unit) (ws : List String) : Unit × String :=
       match v.toInt? with
       | some v => showExcept showNum (fp16ToFloatLive v)
       | none => "bad-op"
+    | ["cq", a, b, c, d] =>
+      match a.toInt?, b.toInt?, c.toInt?, d.toInt? with
+      | some a, some b, some c, some d => showExcept toString (compressInt (vec4 a b c d))
+      | _, _, _, _ => "bad-op"
+    | ["dq", c] =>
+      match c.toNat? with
+      | some c => showExcept (fun p => s!"{p.1} {showComps p.2}") (decompressParts c)
+      | none => "bad-op"
+    | ["spatial", q] =>
+      match parseQ? q with
+      | some q => showExcept toString (encodeSpatial q)
+      | none => "bad-op"
+    | ["yaw", q] =>
+      match parseQ? q with
+      | some q => showExcept toString (encodeYawDeg q)
+      | none => "bad-op"
+    | ["start", x, y, z, w] =>
+      match parseQ? x, parseQ? y, parseQ? z, parseQ? w with
+      | some x, some y, some z, some w => showExcept toHex (packStart x y z w)
+      | _, _, _, _ => "bad-op"
+    | ["segment", d, x, y, z, w] =>
+      match parseQ? d, parseQs? x, parseQs? y, parseQs? z, parseQs? w with
+      | some d, some x, some y, some z, some w => showExcept toHex (packSegment d x y z w)
+      | _, _, _, _, _ => "bad-op"
+    | ["led", ls] =>
+      match parseLeds? ls with
+      | some ls => showExcept toHex (ledWriteData ls)
+      | none => "bad-op"
+    | ["ledt", ts] =>
+      match parseTimings? ts with
+      | some ts => showExcept toHex (timingsWriteData ts)
+      | none => "bad-op"
+    | ["inc", raw] =>
+      match ofHex? raw with
+      | some b => showExcept showIncoming (incoming b)
+      | none => "bad-op"
+    | ["bitop", op, a, b] =>      -- self-test of the Gen prelude against Python's int operators
+      match a.toInt?, b.toInt? with
+      | some a, some b =>
+        match op with
+        | "and" => s!"ok {Gen.C13.pyAnd a b}"
+        | "or" => s!"ok {Gen.C13.pyOr a b}"
+        | "xor" => s!"ok {Gen.C13.pyXor a b}"
+        | "shl" => match b with | .ofNat k => s!"ok {Gen.C13.shl a k}" | _ => "bad-op"
+        | "shr" => match b with | .ofNat k => s!"ok {Gen.C13.shr a k}" | _ => "bad-op"
+        | "not" => s!"ok {Gen.C13.pyNot a}"
+        | _ => "bad-op"
+      | _, _ => "bad-op"
     | _ => "bad-op"
   ((), r)
 
